@@ -102,12 +102,17 @@ def run_case(case):
 
                 hs = holders.get(a, [])
                 mech = "other"
-                for x in hs:
-                    for y in hs:
-                        if x != y:
-                            sx, sy = ref.sp(sd.node_data(x)["space"]), ref.sp(sd.node_data(y)["space"])
-                            if sx != sy and issub(sy, sx) and y not in nx.descendants(sd.dag, x):
-                                mech = "subspace-node-not-a-descendant"
+                # In a proper succession diagram an attractor inside two nodes lies inside a successor of at least
+                # one of them. A cross-node duplicate therefore means that some reporting node does not have all of
+                # its reference successors (percolated maximal trap spaces): is that the case here?
+                from ..ref import key as _key
+
+                for x in set(hs):
+                    sx = ref.sp(sd.node_data(x)["space"])
+                    want = set(ref.children_of(sx, is_root=(x == sd.root())).keys())
+                    got = {_key(ref.sp(sd.node_data(j)["space"])) for j in sd.dag.successors(x)}
+                    if not want <= got:
+                        mech = "reporting-node-lacks-reference-successors"
                 res.v(f"attractor-with-{min(k, 2)}plus-seeds:{strat}:{mech}", f"attractor {ref.states(a)[:8]} has {k} seeds (nodes {hs})", ctx=ctx)
             else:
                 res.c("attractors_matched")
